@@ -2,11 +2,11 @@
 import gen_line as GL
 import gen_mapper as GM
 
-BASES = [b"x", b"y", b"foo", b"svc.req", b"a.b", b"a.b.c", b"my-svc.lat", b"9lives", b"x_sum", b"x_count", b"x_bucket", b"y_sum",
+BASES = [b"x", b"y", b"foo", b"r\xef\xbf\xbdq", b"svc.req", b"a.b", b"a.b.c", b"my-svc.lat", b"9lives", b"x_sum", b"x_count", b"x_bucket", b"y_sum",
          b"x_total", b"t", b"caf\xc3\xa9.q", b"a--b"]
 COMP = [b"a", b"b", b"c", b"req", b"lat", b"x", b"y", b"9", b"p-q", b"z_sum", b"z"]
 LKEYS = [b"env", b"job2", b"k_1", b"dc", b"le", b"quantile", b"__x", b"aa"]
-TAGKEYS = [b"env", b"k", b"a.b", b"a-b", b"dc", b"9k", b"le", b"quantile", b"__name__", b"-_x", b"job2"]
+TAGKEYS = [b"env", b"k", b"a.b", b"a-b", b"dc", b"h\xef\xbf\xbdst", b"9k", b"le", b"quantile", b"__name__", b"-_x", b"job2"]
 TAGVALS = [b"prod", b"v", b"1", b"a=b", b"with space", b"caf\xc3\xa9", b"x.y"]
 SCALES = [None, None, None, 0.5, 2.0, 1000.0, 0.0, -1.0, 0.001]
 TTLS = [0, 0, 10**9, 2 * 10**9, 5 * 10**9, 10 * 10**9]
